@@ -211,5 +211,7 @@ Fixpoint all_reqs (f : request -> xobs -> bool) (qs : list request) (os : list x
   | _, _ => true
   end.
 
+(* histories whose model run is schedule-dependent (two events at one instant) are not judged: their logs may
+   legitimately differ from run to run, and the harness' own reads (e.g. Executions()+1 at function exit) race there *)
 Definition failures_of (f : request -> xobs -> bool) (cs : list hcase) : list Z :=
-  map h_id (filter (fun h => negb (all_reqs f (h_reqs h) (h_obs h))) cs).
+  map h_id (filter (fun h => negb (skipped h) && negb (all_reqs f (h_reqs h) (h_obs h))) cs).
